@@ -8,6 +8,16 @@ VERIF = Path(__file__).resolve().parent.parent
 TRUST = ('TLC/SANY and the Json/IOUtils community modules; the harness '
          'projection functions; ')
 
+# what rounds 3-5 of the seeded changes added to the drivers (DESIGN.md 10)
+EXTRA = {
+    'lib': ' Also driven: two callers at once (line-level preemption by code location), the same calls in a '
+           '`python -O` interpreter where applicable, and objects continued on / forked to deep copies and pickle '
+           'round trips.',
+    'table': ' Sessions also run in a `python -O` interpreter, with a second table alive in the same process, with '
+             'refused connection requests on the way, with the process ending when Server.run returns (command-line '
+             'use) and with the log snapshot whenever "End of session" is sent.',
+}
+
 CHECKS = {
     'C01': dict(
         category='model_checking',
@@ -232,7 +242,11 @@ def main():
             'evidence_file': f'evidence/{pid}.json',
             'replay_cmd_template': f'bin/check {pid} --replay {{path}}',
             'engine': 'tlc',
-            'level_claimed': {'category': c['category'], 'text': c['text'],
+            'level_claimed': {'category': c['category'],
+                              'text': c['text'] + (EXTRA['lib'] if pid in ('C01', 'C02', 'C03', 'C04', 'C05', 'C06',
+                                                                           'C07', 'C14', 'C15', 'C16')
+                                                   else EXTRA['table'] if pid in ('C08', 'C09', 'C10', 'C11')
+                                                   else ''),
                               'design_ref': c['design_ref']},
             'level_note': c['note'],
             'technique': c['technique'],
